@@ -96,6 +96,38 @@ Inductive reach (p : prog) (c0 : config) : config -> Prop :=
 Definition init (p : prog) (ts : list fname) : config :=
   mkConfig (map (fun g => [mkFrame g [] (body p g)]) ts) (fun _ => None).
 
+(* the same semantics as a function (used to replay schedules: findings, examples) *)
+Definition exec_step (p : prog) (c : config) (i : nat) : option config :=
+  match nth_error (threads c) i with
+  | Some (mkFrame g L (o :: t) :: st) =>
+      match o with
+      | Acq l =>
+          match owner c l with
+          | None => Some (mkConfig (upd i (mkFrame g (l :: L) t :: st) (threads c)) (set_owner (owner c) l (Some i)))
+          | Some _ => None
+          end
+      | Rel l =>
+          match owner c l with
+          | Some j => if Nat.eqb j i
+                      then Some (mkConfig (upd i (mkFrame g (removeN l L) t :: st) (threads c)) (set_owner (owner c) l None))
+                      else None
+          | None => None
+          end
+      | Rd _ | Wr _ => Some (mkConfig (upd i (mkFrame g L t :: st) (threads c)) (owner c))
+      | Call h => Some (mkConfig (upd i (mkFrame h [] (body p h) :: mkFrame g L t :: st) (threads c)) (owner c))
+      | Spawn h => Some (mkConfig (upd i (mkFrame g L t :: st) (threads c) ++ [[mkFrame h [] (body p h)]]) (owner c))
+      end
+  | Some (mkFrame g L [] :: st) => Some (mkConfig (upd i st (threads c)) (owner c))
+  | _ => None
+  end.
+
+(* run a schedule (which thread moves next); None if some move is not enabled *)
+Fixpoint run (p : prog) (c : config) (sched : list nat) : option config :=
+  match sched with
+  | [] => Some c
+  | i :: r => match exec_step p c i with Some c' => run p c' r | None => None end
+  end.
+
 (* the lock thread i is about to acquire *)
 Definition awaited (c : config) (i : nat) : option lock :=
   match nth_error (threads c) i with
